@@ -40,8 +40,31 @@ type DEval struct {
 	Consts map[types.Object]string // named constants -> symbol
 	// EffectFree: callee name patterns whose calls are ignored as statements.
 	EffectFree []string
-	depth      int
-	Undecided  string
+	// Opaque: callee name -> model path; the call's result is a table input.
+	Opaque    map[string]string
+	depth     int
+	Undecided string
+}
+
+func atoiSym(s string) (int, bool) {
+	s = strings.TrimPrefix(s, "const:")
+	s = strings.TrimPrefix(s, "lit:")
+	n, neg, any := 0, false, false
+	for i, c := range s {
+		if i == 0 && c == '-' {
+			neg = true
+			continue
+		}
+		if c < '0' || c > '9' {
+			return 0, false
+		}
+		n = n*10 + int(c-'0')
+		any = true
+	}
+	if neg {
+		n = -n
+	}
+	return n, any
 }
 
 type dret struct {
@@ -127,7 +150,7 @@ func (d *DEval) stmt(f *Func, s ast.Stmt, env map[types.Object]dval) dret {
 		if d.Undecided != "" {
 			return dret{}
 		}
-		if c.s == "true" {
+		if d.scal(c) == "true" {
 			return d.block(f, st.Body.List, env)
 		}
 		if st.Else != nil {
@@ -221,7 +244,7 @@ func (d *DEval) stmt(f *Func, s ast.Stmt, env map[types.Object]dval) dret {
 				if hasTag {
 					hit = d.equal(tag, v)
 				} else {
-					hit = v.s == "true"
+					hit = d.scal(v) == "true"
 				}
 				if hit {
 					return d.caseBody(f, cc, env)
@@ -262,7 +285,13 @@ func (d *DEval) lookup(path string) (string, bool) {
 }
 
 func (d *DEval) equal(a, b dval) bool {
-	return d.scal(a) == d.scal(b)
+	x, y := d.scal(a), d.scal(b)
+	if m, ok := atoiSym(x); ok {
+		if n, ok := atoiSym(y); ok {
+			return m == n // integer literals, constants and numeric symbols compare by value
+		}
+	}
+	return x == y
 }
 
 // scal resolves a value to its scalar symbol.
@@ -288,6 +317,8 @@ func boolVal(b bool) dval {
 func (d *DEval) expr(f *Func, e ast.Expr, env map[types.Object]dval) (dval, bool) {
 	info := f.Info()
 	switch x := ast.Unparen(e).(type) {
+	case *ast.BasicLit:
+		return dval{scalar: true, s: "lit:" + x.Value}, false
 	case *ast.Ident:
 		switch x.Name {
 		case "true", "false":
@@ -375,6 +406,34 @@ func (d *DEval) expr(f *Func, e ast.Expr, env map[types.Object]dval) (dval, bool
 			}
 			r, p := d.expr(f, x.Y, env)
 			return boolVal(d.scal(r) == "true"), p
+		case token.LSS, token.LEQ, token.GTR, token.GEQ:
+			// order comparisons: both sides must resolve to small integers of the
+			// abstract universe (values touched only through comparisons: a finite
+			// set of orderings)
+			l, p := d.expr(f, x.X, env)
+			if p {
+				return dval{}, true
+			}
+			r, p := d.expr(f, x.Y, env)
+			if p {
+				return dval{}, true
+			}
+			a, okA := atoiSym(d.scal(l))
+			b, okB := atoiSym(d.scal(r))
+			if !okA || !okB {
+				d.undecided("order comparison of non-numeric abstract values at %s", d.Prog.Pos(x.Pos()))
+				return dval{}, false
+			}
+			switch x.Op {
+			case token.LSS:
+				return boolVal(a < b), false
+			case token.LEQ:
+				return boolVal(a <= b), false
+			case token.GTR:
+				return boolVal(a > b), false
+			default:
+				return boolVal(a >= b), false
+			}
 		case token.EQL, token.NEQ:
 			l, p := d.expr(f, x.X, env)
 			if p {
@@ -388,8 +447,36 @@ func (d *DEval) expr(f *Func, e ast.Expr, env map[types.Object]dval) (dval, bool
 			// pointer compared with nil: "ptr" != "nil"
 			return boolVal(eq == (x.Op == token.EQL)), false
 		}
+	case *ast.IndexExpr:
+		base, p := d.expr(f, x.X, env)
+		if p {
+			return dval{}, true
+		}
+		idx, p := d.expr(f, x.Index, env)
+		if p {
+			return dval{}, true
+		}
+		if base.scalar {
+			d.undecided("index of a scalar at %s", d.Prog.Pos(x.Pos()))
+			return dval{}, false
+		}
+		return dval{s: base.s + "[" + d.scal(idx) + "]"}, false
 	case *ast.CallExpr:
 		fn := Callee(info, x)
+		// opaque functions: their result is an input of the table
+		if path, ok := d.Opaque[FName(fn)]; ok {
+			// "name()" = the result depends on the receiver: one input per receiver path
+			if strings.HasSuffix(path, "()") {
+				if se, isSel := ast.Unparen(x.Fun).(*ast.SelectorExpr); isSel {
+					rv, p := d.expr(f, se.X, env)
+					if p {
+						return dval{}, true
+					}
+					return dval{s: strings.TrimSuffix(path, "()") + "(" + rv.s + ")"}, false
+				}
+			}
+			return dval{s: path}, false
+		}
 		callee := d.Prog.FuncOf(fn)
 		if callee != nil && callee.Decl.Body != nil {
 			var args []dval
@@ -488,7 +575,12 @@ type DResult struct {
 
 // EvalOn evaluates f on model m with the given argument roots.
 func EvalOn(p *Prog, f *Func, m DModel, args []dval, consts map[types.Object]string, effectFree []string) (DResult, string) {
-	d := &DEval{Prog: p, Model: m, Consts: consts, EffectFree: effectFree}
+	return EvalOnX(p, f, m, args, consts, effectFree, nil)
+}
+
+// EvalOnX is EvalOn with opaque callees (callee name -> model path of its result).
+func EvalOnX(p *Prog, f *Func, m DModel, args []dval, consts map[types.Object]string, effectFree []string, opaque map[string]string) (DResult, string) {
+	d := &DEval{Prog: p, Model: m, Consts: consts, EffectFree: effectFree, Opaque: opaque}
 	r := d.CallFunc(f, args)
 	if d.Undecided != "" {
 		return DResult{}, d.Undecided
@@ -501,3 +593,6 @@ func EvalOn(p *Prog, f *Func, m DModel, args []dval, consts map[types.Object]str
 	}
 	return DResult{Value: d.scal(r.vals[0])}, d.Undecided
 }
+
+// DVal is the exported name of an abstract value (for rule files).
+type DVal = dval
